@@ -150,7 +150,8 @@ fn fuzzy(rep: &mut Report, d: &Arc<dyn Dictionary>, name: &str, words: &[Vec<cha
         last = *dist;
     }
     // completeness for lower-case queries (needs the full word list: small dictionaries only)
-    let q_is_lower = qn.iter().all(|c| !c.is_uppercase());
+    // a lower-case query is one that lower-casing leaves unchanged (a title-case letter such as U+01C5 is not upper case, but it is not lower case either)
+    let q_is_lower = qn.iter().all(|c| !c.is_uppercase()) && ql == qn;
     if complete && q_is_lower {
         let mut truth: Vec<(usize, Vec<char>)> = Vec::new();
         for w in words {
@@ -193,6 +194,10 @@ pub fn worker(ctx: &mut Ctx) {
         for b in alpha {
             small_words.push(vec![a, b]);
         }
+    }
+    // a few longer words: one dictionary's word can then be another dictionary's words written one after the other
+    for w in ["aaa", "aba", "abb"] {
+        small_words.push(w.chars().collect());
     }
     // words consisting only of apostrophes are not words
     small_words.retain(|w| w.iter().any(|c| c.is_alphabetic()));
@@ -268,8 +273,19 @@ pub fn worker(ctx: &mut Ctx) {
                 }
                 // merged of two different parts behaves as the union, first child wins; the parts are
                 // taken from the original word list, so they may hold case twins of each other
-                if orig_words.len() >= 2 {
-                    let (pa, pb) = orig_words.split_at(1);
+                for split in 0..(if orig_words.len() >= 2 { orig_words.len() } else { 0 }) {
+                  for swap in [false, true] {
+                    // every word in turn is one part, the rest the other; either part is added first
+                    let mut rot = orig_words.clone();
+                    rot.swap(0, split);
+                    if swap && rot.len() < 3 {
+                        continue; // with two words, swapping the parts is the same as the other split
+                    }
+                    let (pa, pb) = if swap { let (x, y) = rot.split_at(1); (y.to_vec(), x.to_vec()) } else { let (x, y) = rot.split_at(1); (x.to_vec(), y.to_vec()) };
+                    // within one part, twins would collapse: keep the first spelling of each folded word
+                    let mut seen_a: Vec<Vec<char>> = Vec::new();
+                    let pa: Vec<Vec<char>> = pa.iter().filter(|w| { let f = lower(&norm(w)); if seen_a.contains(&f) { false } else { seen_a.push(f); true } }).cloned().collect();
+                    let (pa, pb) = (&pa[..], &pb[..]);
                     // within one part, twins would collapse: keep the first spelling of each folded word
                     let mut seen: Vec<Vec<char>> = Vec::new();
                     let pb: Vec<Vec<char>> = pb.iter().filter(|w| { let f = lower(&norm(w)); if seen.contains(&f) { false } else { seen.push(f); true } }).cloned().collect();
@@ -305,8 +321,18 @@ pub fn worker(ctx: &mut Ctx) {
                             if mg.get_correct_capitalization_of(q).map(|w| w.to_vec()) != u_cap {
                                 rep.finding("C15", &format!("union.capitalization@{name}"), 16 + q.len(), wit, || "canonical spelling is not that of the first child containing the word".to_string());
                             }
+                            // fuzzy search over the union: every word of either part within the bound is a result
+                            if q.len() <= 2 && q.iter().all(|c| !c.is_uppercase()) {
+                                let got: Vec<Vec<char>> = mg.fuzzy_match(q, 1, 100).iter().map(|r| r.word.to_vec()).collect();
+                                for w in pa.iter().chain(pb.iter()) {
+                                    if lev(q, w) <= 1 && !got.iter().any(|g| g == w) && !got.iter().any(|g| lower(&norm(g)) == lower(&norm(w))) {
+                                        rep.finding("C15", &format!("union.fuzzy-missed@{name}"), 16 + q.len(), wit, || format!("{:?} is within distance 1 of the query and in one of the parts, but the merged dictionary does not return it", st(w)));
+                                    }
+                                }
+                            }
                         }
                     }
+                  }
                 }
             }
         }
@@ -406,6 +432,48 @@ pub fn worker(ctx: &mut Ctx) {
                     }
                 }
             }
+        }
+        // characters whose case mappings are not one-to-one or not round-trip (U+0130 lower-cases to two chars, U+00DF
+        // upper-cases to two, U+01C5 is title case, U+212A / U+017F fold onto ASCII, final sigma, ligatures)
+        if ctx.shard == 1 % ctx.nshards {
+            let bases = ["\u{0130}stanbul", "istanbul", "\u{0130}zmir", "stra\u{00DF}e", "\u{01C5}ungla", "\u{212A}elvin", "kelvin", "\u{017F}ir", "\u{03A3}\u{03AF}\u{03C3}\u{03C5}\u{03C6}\u{03BF}\u{03C2}", "\u{FB01}nd", "I\u{0307}d", "\u{0149}goma", "DI\u{0307}L"];
+            let mut rep = std::mem::take(&mut ctx.report);
+            let mut queries: Vec<Vec<char>> = Vec::new();
+            for b in bases {
+                let w: Vec<char> = b.chars().collect();
+                queries.push(w.clone());
+                queries.push(lower(&w));
+                queries.push(w.iter().flat_map(|c| c.to_uppercase()).collect());
+                queries.push(w.iter().map(|c| c.to_lowercase().next().unwrap_or(*c)).collect());
+                queries.push(w.iter().filter(|c| **c != '\u{0307}').copied().collect());
+                queries.push(lower(&w).into_iter().filter(|c| *c != '\u{0307}').collect());
+            }
+            queries.sort();
+            queries.dedup();
+            let mut dicts: Vec<Vec<Vec<char>>> = bases.iter().map(|b| vec![b.chars().collect()]).collect();
+            dicts.push(vec![bases[0].chars().collect(), bases[1].chars().collect()]);
+            dicts.push(vec![bases[5].chars().collect(), bases[6].chars().collect()]);
+            for words in &dicts {
+                // the content is what the mutable back-end holds
+                let words: Vec<Vec<char>> = {
+                    let mut m = MutableDictionary::new();
+                    m.extend_words(words.iter().map(|w| (w.clone(), WordMetadata::default())));
+                    let mut v: Vec<Vec<char>> = m.words_iter().map(|w| w.to_vec()).collect();
+                    v.sort();
+                    v
+                };
+                if let Ok(b) = guarded(|| backends(&words)) {
+                    for q in &queries {
+                        agree(&mut rep, &b, &words, q, "special-casing");
+                        for bound in 0..=2u8 {
+                            for (i, d) in b.dicts.iter().enumerate() {
+                                fuzzy(&mut rep, d, b.names[i], &words, q, bound, 10, "special-casing", true);
+                            }
+                        }
+                    }
+                }
+            }
+            ctx.report = rep;
         }
         // apostrophe and case variants: four back-ends built from the same words must agree on every query API
         if ctx.shard == 0 {
